@@ -9,6 +9,8 @@ import (
 	"sort"
 	"strings"
 
+	"verif/harness/lockgen"
+
 	"github.com/elnosh/gonuts/cashu"
 	"github.com/elnosh/gonuts/cashu/nuts/nut05"
 	"github.com/elnosh/gonuts/mint"
@@ -195,6 +197,8 @@ func (m *Machine) exec(t *rapid.T, op string) bool {
 		return m.opMeltQuoteBoundary(t)
 	case "lockedmint":
 		return m.opLockedMint(t)
+	case "locked_spend":
+		return m.opLockedSpend(t)
 	}
 	return false
 }
@@ -1162,4 +1166,79 @@ func Run(t *rapid.T, cfg world.Config, opt Options) *Machine {
 	t.Repeat(map[string]func(*rapid.T){"step": m.Step})
 	rec.ClassN("steps", w.M.Steps)
 	return m
+}
+
+// opLockedSpend swaps plain value into a P2PK-locked proof and spends that with a valid witness (swap, or melt
+// with a drawn Lightning outcome): the witness must be stored and reported by checkstate (C15), and a replay
+// of the locked secret with another witness must be refused (C01).
+func (m *Machine) opLockedSpend(t *rapid.T) bool {
+	w := m.W
+	sp := m.spendable()
+	var src *world.MProof
+	for _, p := range sp {
+		if p.P.Amount >= 8 {
+			src = p
+			break
+		}
+	}
+	if src == nil {
+		return false
+	}
+	fee := w.FeeFor(cashu.Proofs{src.P})
+	if src.P.Amount <= fee+2 {
+		return false
+	}
+	cfg := lockgen.Config{Kind: "P2PK", NSigs: -1, Locktime: "absent", Sigflag: "absent", Nonce: w.NewSecret()}
+	secret := cfg.Secret()
+	amts := world.Split(src.P.Amount - fee)
+	outs := w.MakeOutputs(amts, w.ActiveID)
+	last := len(outs) - 1
+	outs[last] = w.BlindSecret(secret, amts[last], w.ActiveID)
+	if _, err := w.Swap(cashu.Proofs{src.P}, outs); err != nil {
+		m.honestFail("swap", err)
+		return true
+	}
+	lp := w.M.Proofs[secret]
+	if lp == nil {
+		return true
+	}
+	in := lp.P
+	in.Witness = lockgen.WitnessJSON("object", []string{lockgen.Sign(lockgen.LockKey, []byte(secret), 0)}, "", false)
+	f2 := w.FeeFor(cashu.Proofs{in})
+	if in.Amount <= f2 {
+		return true
+	}
+	how := rapid.SampledFrom([]string{"swap", "swap", "melt_success", "melt_pending"}).Draw(t, "locked_spend_how")
+	var err error
+	if how == "swap" {
+		_, err = w.Swap(cashu.Proofs{in}, m.honestOutputs(in.Amount-f2))
+	} else {
+		amt := in.Amount - f2
+		for amt > 0 && amt+w.LN.FeeFor(amt)+f2 > in.Amount {
+			amt--
+		}
+		if amt == 0 {
+			return true
+		}
+		inv := w.Net.ExternalInvoice(amt * 1000)
+		q, qerr := w.RequestMeltQuote(inv.Request, 0)
+		if qerr != nil {
+			m.honestFail("melt_quote", qerr)
+			return true
+		}
+		if how == "melt_success" {
+			w.LN.PayScript = []lnmodel.PayAnswer{lnmodel.PaySuccess}
+		} else {
+			w.LN.PayScript = []lnmodel.PayAnswer{lnmodel.PayPending}
+		}
+		_, err = w.MeltTokens(q, cashu.Proofs{in})
+		w.LN.PayScript = nil
+	}
+	m.logf("spend of a P2PK-locked proof (%d sat) with its witness via %s: err=%v", in.Amount, how, err)
+	if err != nil {
+		m.honestFail("locked_spend", err)
+	} else {
+		m.Count["spend_with_witness"]++
+	}
+	return true
 }
